@@ -43,7 +43,7 @@ def body(c):
     c.extra["lattice_tensors"] = len(traces)
     c.extra["lattice_equal_to_as_built_prediction"] = sum(1 for t in traces if t[0].get("tlc_equal"))
     # wide domain
-    wide = out["wide"] + c.harness("h_qnum.py", {"mode": "aff", "seed": c.seed, "reps": 1 if c.quick else 6, "max_gs": 2 if c.quick else 5})["traces"]
+    wide = out["wide"] + c.harness("h_qnum.py", {"mode": "aff", "seed": c.seed, "reps": 1 if c.quick else 20, "max_gs": 2 if c.quick else 5})["traces"]
     wide = c.screen(wide, "Trace_QNum", chunk=16, constants=devs)
     wres = c.validate("Trace_QNum", wide, chunk=16, constants=devs)
     c.judge(wide, wres, describe=lambda tr: {k: tr[0].get(k) for k in ("bits", "fmt", "shape", "axis", "gs", "tag")})
